@@ -389,6 +389,53 @@ theorem autopack_visible (chk : Bool) (revsOf : Nat → List Nat) (d : Disk) (a 
     · exact cover n (Or.inl hd) hr
     · exact cover new0 (Or.inr rfl) hr
 
+/-- final `pack-names` of a full `pack()` that wrote a new pack -/
+theorem pack_final_names (chk : Bool) (d : Disk) (v : View) (clean : Bool) (tmp1 new1 : Nat)
+    (hen : (!chk && decide (v.names.length ≤ 1)) = false) (hne : v.names.isEmpty = false) :
+    (run d (packOps chk d v false clean tmp1 new1)).names = mergeNames d.names v.atLoad [new1] := by
+  simp only [packOps, hen, hne, Bool.false_eq_true, if_false]
+  rw [run_append]
+  have : ∀ d0 : Disk, (run d0 (if clean = true then clearOps (run d
+      (newPackOps chk (upTmp tmp1 true) new1 ++ saveOps chk d ⟨[new1], v.atLoad⟩ (some v.names))) [] else [])).names
+      = d0.names := by
+    intro d0
+    cases clean
+    · rfl
+    · exact run_names_noPut _ _ (clearOps_noPut _ _)
+  rw [this, run_append, run_saveOps_names]
+
+/-- **`pack()` preserves what is visible** (no concurrent writers; the new pack
+holds exactly the revisions of the packs it replaces). -/
+theorem pack_visible (chk : Bool) (revsOf : Nat → List Nat) (d : Disk) (clean : Bool) (tmp1 new1 : Nat)
+    (hen : (!chk && decide (d.names.length ≤ 1)) = false) (hne : d.names.isEmpty = false)
+    (h1 : new1 ∉ d.names)
+    (hcopy : ∀ r, r ∈ revsOf new1 ↔ ∃ n ∈ d.names, r ∈ revsOf n) (r : Nat) :
+    r ∈ visible revsOf (run d (packOps chk d ⟨d.names, d.names⟩ false clean tmp1 new1))
+      ↔ r ∈ visible revsOf d := by
+  rw [visible, pack_final_names chk d ⟨d.names, d.names⟩ clean tmp1 new1 hen hne]
+  simp only [visible, List.mem_flatMap, mem_mergeNames, List.mem_singleton]
+  constructor
+  · rintro ⟨n, (⟨hd, _⟩ | ⟨rfl, _, _⟩), hr⟩
+    · exact ⟨n, hd, hr⟩
+    · exact (hcopy r).mp hr
+  · rintro ⟨n, hd, hr⟩
+    exact ⟨new1, Or.inr ⟨rfl, h1, h1⟩, (hcopy r).mpr ⟨n, hd, hr⟩⟩
+
+/-! ### the calls that must not raise do not raise -/
+
+/-- **No transport call of a plain commit raises**: from an unlocked directory
+every operation of `commit_write_group` (new pack, `finish`, lock, `put_file`,
+unlock) finds its precondition satisfied (`runE` does not fail) — so the total
+`step` never takes its "missing file" branch on this path.  (The moves of
+`_obsolete_packs` and the deletes of `_clear_obsolete_packs` are allowed to
+fail in the real code: their errors are caught.) -/
+theorem commit_ops_enabled (chk : Bool) (d : Disk) (v : View) (tmp0 new0 : Nat) (hl : d.locked = false) :
+    runE d (commitOpsWith chk d v .noAutopack tmp0 new0 0 0)
+      = some (run d (commitOpsWith chk d v .noAutopack tmp0 new0 0 0)) := by
+  cases chk <;>
+    simp [commitOpsWith, newPackOps, finishOps, idxExts, saveOps, upTmp, runE, run, step, Enabled, rm,
+      List.mem_filter, hl]
+
 /-! ### leftovers -/
 
 /-- **Leftover files are harmless**: arbitrary extra files (complete or torn) in
